@@ -266,3 +266,27 @@ impl LuaIndex for DbIndex {
         self.json_schema_index.clear();
     }
 }
+
+#[cfg(feature = "verif-hooks")]
+impl DbIndex {
+    /// verif hook H1: entry counts of every map of every index and of the Vfs
+    pub fn verif_index_sizes(&self) -> Vec<(String, usize)> {
+        let mut out = Vec::new();
+        self.decl_index.verif_sizes(&mut out);
+        self.references_index.verif_sizes(&mut out);
+        self.types_index.verif_sizes(&mut out);
+        self.modules_index.verif_sizes(&mut out);
+        self.members_index.verif_sizes(&mut out);
+        self.property_index.verif_sizes(&mut out);
+        self.signature_index.verif_sizes(&mut out);
+        self.diagnostic_index.verif_sizes(&mut out);
+        self.operator_index.verif_sizes(&mut out);
+        self.flow_index.verif_sizes(&mut out);
+        self.file_dependencies_index.verif_sizes(&mut out);
+        self.metatable_index.verif_sizes(&mut out);
+        self.global_index.verif_sizes(&mut out);
+        self.json_schema_index.verif_sizes(&mut out);
+        self.vfs.verif_sizes(&mut out);
+        out
+    }
+}
